@@ -783,11 +783,16 @@ def rule_b(F):
         if not stores:
             continue
         writers[f.short] = stores[0][1].get("ln")
-        if f.short in inside:
+        if f.short in (fn.short, cfn.short):
             continue
         stores = [x for x in stores if x[2] != "init"]
         if not stores:
             continue    # initialisation of a Vm the function owns (constructor)
+        if f.short in inside:
+            # the wrapper around a loop that counts on a copy: its other stores are the store-back (synced_copy decides those)
+            stores = [x for x in stores if x[2] == "reset"]
+            if not stores or f.short in in_run:
+                continue
         if all(kind == "reset" for _bi, _st, kind in stores) and f.short not in in_run:
             # a top-level entry point handing out a fresh budget: legitimate. It counts as *the* reset if the fresh budget is in
             # place before the interpreter is started
